@@ -373,11 +373,12 @@ theorem headerOf_wp {E : String → Prop} (d : DerivedCol) (fields : List Field)
       exact absurd e (getElem?_ne_none_of_lt hidx)
   · trivial
 
-theorem projectColumns_wp {E : String → Prop} (sl : List DerivedCol) (fields : List Field)
+theorem projectColumns_wp {E : String → Prop} (sl : List DerivedCol) (hne : sl ≠ []) (fields : List Field)
     (rows : List Row) (h : ∀ r ∈ rows, r.length = fields.length) :
     Wp E (fun p => (∀ r ∈ p.1, r.length = p.2.length) ∧ (isStar sl = false → p.2.length = sl.length))
       (projectColumns sl fields rows) := by
   unfold projectColumns
+  rw [if_neg (by simpa using hne)]
   split
   · rename_i hs
     simp only [Wp_ok]
@@ -417,16 +418,22 @@ theorem filterRows_lengths (c : Cond) (fields : List Field) (rows out : List Row
     ∀ r ∈ out, r.length = fields.length :=
   fun r hr => h r ((filterRows_wp (E := NoP) c fields rows h).of_ok ho r hr)
 
-theorem projectColumns_no_panic (sl : List DerivedCol) (fields : List Field) (rows : List Row)
-    (h : ∀ r ∈ rows, r.length = fields.length) (s : String) :
+theorem projectColumns_no_panic (sl : List DerivedCol) (hne : sl ≠ []) (fields : List Field)
+    (rows : List Row) (h : ∀ r ∈ rows, r.length = fields.length) (s : String) :
     projectColumns sl fields rows ≠ .panic s :=
-  (projectColumns_wp (E := NoP) sl fields rows h).not_panic s
+  (projectColumns_wp (E := NoP) sl hne fields rows h).not_panic s
+
+/-- an answer of `projectColumns` comes from a select list that is not empty -/
+theorem projectColumns_ok_ne_nil {sl : List DerivedCol} {fields : List Field} {rows : List Row}
+    {p : List Row × List Field} (h : projectColumns sl fields rows = .ok p) : sl ≠ [] := by
+  rintro rfl
+  cases h
 
 theorem projectColumns_lengths (sl : List DerivedCol) (fields : List Field) (rows out : List Row)
     (hdr : List Field) (h : ∀ r ∈ rows, r.length = fields.length)
     (ho : projectColumns sl fields rows = .ok (out, hdr)) :
     (∀ r ∈ out, r.length = hdr.length) ∧ (isStar sl = false → hdr.length = sl.length) :=
-  (projectColumns_wp (E := NoP) sl fields rows h).of_ok ho
+  (projectColumns_wp (E := NoP) sl (projectColumns_ok_ne_nil ho) fields rows h).of_ok ho
 
 /-! ### aggregation -/
 
@@ -448,10 +455,12 @@ theorem aggCell_wp {E : String → Prop} (item : SelItem) {colIdx n : Nat} {g : 
       exact absurd (List.head?_eq_none_iff.mp e) hne
 
 /-- the grouping path of `aggregateRows` is taken with an aggregate in the select list OR with a
-GROUP BY (`SELECT a FROM t GROUP BY a`); on it every row needs one value per select-list element -/
+GROUP BY (`SELECT a FROM t GROUP BY a`); on it the select list must not start with `*` (the rows of
+such a list are not projected: `star_aggregate_panics`) and every row needs one value per
+select-list element -/
 theorem aggregateRows_wp {E : String → Prop} (sl : List DerivedCol) (groupBy : List ColRef)
     (rows : List Row)
-    (h : hasAggr sl = true ∨ groupBy ≠ [] → ∀ r ∈ rows, r.length = sl.length) :
+    (h : hasAggr sl = true ∨ groupBy ≠ [] → isStar sl = false ∧ ∀ r ∈ rows, r.length = sl.length) :
     Wp E (fun _ => True) (aggregateRows sl groupBy rows) := by
   unfold aggregateRows
   split
@@ -465,7 +474,7 @@ theorem aggregateRows_wp {E : String → Prop} (sl : List DerivedCol) (groupBy :
         intro e
         rw [hb, e] at hagg
         exact hagg rfl
-    have hrows := h hagg'
+    obtain ⟨hstar, hrows⟩ := h hagg'
     split
     · apply Wp.bind (P := fun _ => True)
       · refine (mapX_wp (fun _ _ => True) _ sl ?_).mono (fun _ _ => trivial) (fun _ e => e)
@@ -481,6 +490,7 @@ theorem aggregateRows_wp {E : String → Prop} (sl : List DerivedCol) (groupBy :
         intro g _
         split <;> trivial
       · intro idxs _
+        rw [if_neg (by rw [hstar]; exact Bool.false_ne_true)]
         refine (mapX_wp (fun _ _ => True) _ _ ?_).mono (fun _ _ => trivial) (fun _ e => e)
         intro g hg
         have hg' := groups_rows_mem (fun r => idxs.map fun i => (r[i]?).getD .null) rows g hg
@@ -490,9 +500,9 @@ theorem aggregateRows_wp {E : String → Prop} (sl : List DerivedCol) (groupBy :
         exact aggCell_wp d.item hi (fun r hr => hrows r (hg'.1 r hr)) hg'.2
 
 theorem aggregateRows_no_panic (sl : List DerivedCol) (groupBy : List ColRef) (rows : List Row)
-    (h : ∀ r ∈ rows, r.length = sl.length) (s : String) :
+    (hs : isStar sl = false) (h : ∀ r ∈ rows, r.length = sl.length) (s : String) :
     aggregateRows sl groupBy rows ≠ .panic s :=
-  (aggregateRows_wp (E := NoP) sl groupBy rows (fun _ => h)).not_panic s
+  (aggregateRows_wp (E := NoP) sl groupBy rows (fun _ => ⟨hs, h⟩)).not_panic s
 
 theorem bind_eq_ok {α β} {m : X α} {f : α → X β} {b : β} (h : (m >>= f) = .ok b) :
     ∃ a, m = .ok a ∧ f a = .ok b := by
@@ -527,7 +537,12 @@ theorem aggregateRows_one_row_per_key (sl : List DerivedCol) (groupBy : List Col
   simp only [h1, hne, Bool.false_eq_true, if_false] at h
   obtain ⟨idxs, hidx, hout⟩ := bind_eq_ok h
   refine ⟨idxs, hidx, ?_⟩
-  rw [mapX_ok_length hout, aggregateRows_groups, ← groups_keys_first_occurrence, List.length_map]
+  split at hout
+  · unfold aggregateStar at hout
+    split at hout
+    · cases hout
+    · rw [mapX_ok_length hout, aggregateRows_groups, ← groups_keys_first_occurrence, List.length_map]
+  · rw [mapX_ok_length hout, aggregateRows_groups, ← groups_keys_first_occurrence, List.length_map]
 
 /-! ### sorting -/
 
@@ -563,13 +578,31 @@ theorem sortColumns_wp (ob : List SortSpec) (hdr : List Field) (rows : List Row)
 
 /-! ### (i) the main theorem -/
 
+/-- no written bound negative: `cutRows` slices within range -/
+theorem cutRows_wp {E : String → Prop} {lim : LimitOffset} (h : Spec.boundsOK lim = true) (rows : List Row) :
+    Wp E (fun _ => True) (cutRows lim rows) := by
+  unfold Spec.boundsOK at h
+  simp only [Bool.and_eq_true, Bool.or_eq_true, Bool.not_eq_true', decide_eq_true_eq] at h
+  unfold cutRows
+  have h1 : (lim.offsetActive && decide (lim.offset < 0)) = false := by
+    rcases h.1 with e | e
+    · rw [e]; rfl
+    · rw [decide_eq_false (Int.not_lt.2 e), Bool.and_false]
+  have h2 : (lim.limitActive && decide (lim.limit < 0)) = false := by
+    rcases h.2 with e | e
+    · rw [e]; rfl
+    · rw [decide_eq_false (Int.not_lt.2 e), Bool.and_false]
+  simp only [h1, h2, Bool.false_eq_true, if_false]
+  trivial
+
 theorem evaluateSelect_wp {fetch : Bytes → Option Table} (hw : WellShaped fetch) (q : Select)
+    (hne : q.list ≠ []) (hb : Spec.boundsOK q.lim = true)
     (hq : isStar q.list = false ∨ (hasAggr q.list = false ∧ q.groupBy = []) ∨
       ∃ a, q.list = [⟨.star, a⟩]) :
     Wp (· = sortMsg) (fun _ => True) (evaluateSelect fetch q) := by
   unfold evaluateSelect
   split
-  · refine (projectColumns_wp (E := (· = sortMsg)) q.list [] [[]] ?_).mono (fun _ _ => trivial) (fun _ e => e)
+  · refine (projectColumns_wp (E := (· = sortMsg)) q.list hne [] [[]] ?_).mono (fun _ _ => trivial) (fun _ e => e)
     intro r hr
     simp at hr
     subst hr
@@ -583,20 +616,17 @@ theorem evaluateSelect_wp {fetch : Bytes → Option Table} (hw : WellShaped fetc
           (projectColumns q.list fields rows1 >>= fun __x =>
             aggregateRows q.list q.groupBy __x.fst >>= fun rows =>
             sortColumns q.orderBy (sortFields q.list __x.snd) rows >>= fun rows =>
-            (pure
-              (if q.lim.limitActive = true then
-                  List.take q.lim.limit.toNat
-                    (if q.lim.offsetActive = true then List.drop q.lim.offset.toNat rows else rows)
-                else if q.lim.offsetActive = true then List.drop q.lim.offset.toNat rows else rows,
-                __x.snd) : X (List Row × List Field))) := by
+            cutRows q.lim rows >>= fun rows =>
+            (pure (rows, __x.snd) : X (List Row × List Field))) := by
       intro rows1 hrows1
-      apply Wp.bind (projectColumns_wp q.list fields rows1 hrows1)
+      apply Wp.bind (projectColumns_wp q.list hne fields rows1 hrows1)
       rintro ⟨rows2, hdr⟩ ⟨hlen2, hstar⟩
       dsimp only at hlen2 hstar ⊢
       apply Wp.bind (P := fun _ => True)
       · rcases hq with hq | ⟨hq, hgb⟩ | ⟨a, hq⟩
         · apply aggregateRows_wp
-          intro _ r hr
+          intro _
+          refine ⟨hq, fun r hr => ?_⟩
           rw [hlen2 r hr, hstar hq]
         · apply aggregateRows_wp
           intro hagg
@@ -608,6 +638,8 @@ theorem evaluateSelect_wp {fetch : Bytes → Option Table} (hw : WellShaped fetc
       · intro rows3 _
         apply Wp.bind (sortColumns_wp _ _ _)
         intro rows4 _
+        apply Wp.bind (cutRows_wp hb rows4)
+        intro rows5 _
         trivial
     split
     · rename_i c _
@@ -623,28 +655,71 @@ with a GROUP BY - except the list `[*]` itself, where a GROUP BY is refused: see
 `star_aggregate_panics`, `star_group_by_panics`.  A GROUP BY without an aggregate is covered by
 the first alternative: the projected rows have one value per select-list element.) -/
 theorem no_panic_except_sort {fetch : Bytes → Option Table} (hw : WellShaped fetch) (q : Select)
+    (hne : q.list ≠ []) (hb : Spec.boundsOK q.lim = true)
     (hq : isStar q.list = false ∨ (hasAggr q.list = false ∧ q.groupBy = []) ∨
       ∃ a, q.list = [⟨.star, a⟩]) (s : String)
     (h : evaluateSelect fetch q = .panic s) : s = "sortColumns: no comparison available" :=
-  (evaluateSelect_wp hw q hq).of_panic h
+  (evaluateSelect_wp hw q hne hb hq).of_panic h
 
 theorem no_panic_except_sort_noaggr {fetch : Bytes → Option Table} (hw : WellShaped fetch)
-    (q : Select) (hq : hasAggr q.list = false) (hgb : q.groupBy = []) (s : String)
+    (q : Select) (hne : q.list ≠ []) (hb : Spec.boundsOK q.lim = true)
+    (hq : hasAggr q.list = false) (hgb : q.groupBy = []) (s : String)
     (h : evaluateSelect fetch q = .panic s) : s = "sortColumns: no comparison available" :=
-  no_panic_except_sort hw q (Or.inr (Or.inl ⟨hq, hgb⟩)) s h
+  no_panic_except_sort hw q hne hb (Or.inr (Or.inl ⟨hq, hgb⟩)) s h
 
 theorem no_panic_except_sort_nostar {fetch : Bytes → Option Table} (hw : WellShaped fetch)
-    (q : Select) (hq : isStar q.list = false) (s : String)
+    (q : Select) (hne : q.list ≠ []) (hb : Spec.boundsOK q.lim = true)
+    (hq : isStar q.list = false) (s : String)
     (h : evaluateSelect fetch q = .panic s) : s = "sortColumns: no comparison available" :=
-  no_panic_except_sort hw q (Or.inl hq) s h
+  no_panic_except_sort hw q hne hb (Or.inl hq) s h
 
-/-- The parser (`selectList`) produces either the one-element list `[*]` or a list without `*`
-in first position; both satisfy the side condition. -/
+/-- **The shape of a SELECT the parser builds, as far as `EvaluateSelect` relies on it** (every parsed
+SELECT has it: `parsed_select_shape` in `Mkdb/Proofs/TypedTables6.lean`): the select list is not empty
+(`selectList[0]`), it is `*` alone or does not start with `*` (the grouping loop indexes the rows with
+select-list positions), and no written LIMIT / OFFSET is negative (`rows[offset:]`, `rows[0:limit]`).
+Decidable. -/
+def ParsedShape (q : Select) : Prop :=
+  q.list ≠ [] ∧ (isStar q.list = true → q.list.length = 1) ∧ Spec.boundsOK q.lim = true
+
+instance (q : Select) : Decidable (ParsedShape q) := by unfold ParsedShape; infer_instance
+
+theorem ParsedShape.ne_nil {q : Select} (h : ParsedShape q) : q.list ≠ [] := h.1
+theorem ParsedShape.bounds {q : Select} (h : ParsedShape q) : Spec.boundsOK q.lim = true := h.2.2
+
+/-- `*` alone, or no `*` in first position -/
+theorem ParsedShape.star {q : Select} (h : ParsedShape q) :
+    (∃ a, q.list = [⟨.star, a⟩]) ∨ isStar q.list = false := by
+  cases hs : isStar q.list with
+  | false => exact .inr rfl
+  | true =>
+    left
+    have hl := h.2.1 hs
+    cases hq : q.list with
+    | nil => rw [hq] at hl; cases hl
+    | cons d rest =>
+      rw [hq] at hl hs
+      cases rest with
+      | nil =>
+        obtain ⟨item, a⟩ := d
+        simp only [isStar, beq_iff_eq] at hs
+        exact ⟨a, by rw [show item = SelItem.star from hs]⟩
+      | cons _ _ => simp at hl
+
+theorem ParsedShape.of_star {q : Select} (hb : Spec.boundsOK q.lim = true) {a : Bytes}
+    (h : q.list = [⟨.star, a⟩]) : ParsedShape q :=
+  ⟨by rw [h]; exact List.cons_ne_nil _ _, fun _ => (by rw [h]; rfl), hb⟩
+
+theorem ParsedShape.of_nostar {q : Select} (hne : q.list ≠ []) (hb : Spec.boundsOK q.lim = true)
+    (h : isStar q.list = false) : ParsedShape q :=
+  ⟨hne, fun e => (by rw [h] at e; cases e), hb⟩
+
+/-- The parser (`selectList`) produces either the one-element list `[*]` or a non-empty list without
+`*` in first position, and refuses a negative LIMIT / OFFSET: the side conditions hold. -/
 theorem no_panic_except_sort_parsed_shape {fetch : Bytes → Option Table} (hw : WellShaped fetch)
-    (q : Select) (hq : (∃ a, q.list = [⟨.star, a⟩]) ∨ isStar q.list = false) (s : String)
+    (q : Select) (hq : ParsedShape q) (s : String)
     (h : evaluateSelect fetch q = .panic s) : s = "sortColumns: no comparison available" := by
-  apply no_panic_except_sort hw q ?_ s h
-  rcases hq with ⟨a, e⟩ | e
+  apply no_panic_except_sort hw q hq.ne_nil hq.bounds ?_ s h
+  rcases hq.star with ⟨a, e⟩ | e
   · exact Or.inr (Or.inr ⟨a, e⟩)
   · left; exact e
 
@@ -721,20 +796,42 @@ example : evaluateSelect exFetch
       orderBy := [⟨⟨[], [99]⟩, true⟩] } =
     .ok ([[.int 1, .int 1], [.int 2, .int 1]], [⟨[116], [105]⟩, ⟨[], [99]⟩]) := rfl
 
-/-- the side condition of (i) is necessary: `SELECT *, count(*), 1 FROM t` on a one-column
-table indexes the joined row with the select-list position. -/
+/-- `SELECT *, count(*), 1` (hand-built: the parser builds `*` alone) -/
+def exStarAgg : Select :=
+  { list := [⟨.star, []⟩, ⟨.count none, []⟩, ⟨.expr (.val (.lit (.int 1))), []⟩],
+    from_ := some (.table ⟨[116], none⟩) }
+
+/-- the side condition of (i) is necessary: `SELECT *, count(*), 1 FROM t` on a one-column table
+with two rows indexes the unprojected row with the select-list position of the COUNT - from the
+second row of a group on (as the Go code: on ONE row it answers that row, `[[1]]`). -/
 theorem star_aggregate_panics :
-    evaluateSelect (fun _ => some ⟨[[105]], [[.int 1]]⟩)
-      { list := [⟨.star, []⟩, ⟨.count none, []⟩, ⟨.expr (.val (.lit (.int 1))), []⟩],
-        from_ := some (.table ⟨[116], none⟩) } = .panic "aggregateRows: Vals[colIdx]" := rfl
+    evaluateSelect (fun _ => some ⟨[[105]], [[.int 1], [.int 2]]⟩) exStarAgg =
+      .panic "aggregateRows: Vals[colIdx]" ∧
+    evaluateSelect (fun _ => some ⟨[[105]], [[.int 1]]⟩) exStarAgg = .ok ([[.int 1]], [⟨[116], [105]⟩]) :=
+  ⟨rfl, rfl⟩
 
 /-- and so is its GROUP BY half: `SELECT *, i FROM t GROUP BY i` (no aggregate; a list the parser
-never builds) on a one-column table indexes the joined row with the select-list position. -/
+never builds) on a one-column table indexes the unprojected row with the select-list position of `i`
+for the group key - on the first row already. -/
 theorem star_group_by_panics :
     evaluateSelect (fun _ => some ⟨[[105]], [[.int 1]]⟩)
       { list := [⟨.star, []⟩, ⟨.expr (.val (.col ⟨[], [105]⟩)), []⟩],
         from_ := some (.table ⟨[116], none⟩),
-        groupBy := [⟨[], [105]⟩] } = .panic "aggregateRows: Vals[colIdx]" := rfl
+        groupBy := [⟨[], [105]⟩] } = .panic "aggregateRows: groupKey row.Vals[idx]" := rfl
+
+/-- the other side conditions are necessary too: an empty select list is indexed at `[0]`, a negative
+LIMIT or OFFSET is a slice out of range - whatever the rows (here: none) -/
+theorem empty_list_and_negative_bounds_panic :
+    evaluateSelect (fun _ => some ⟨[[105]], []⟩) { list := [], from_ := some (.table ⟨[116], none⟩) } =
+      .panic "projectColumns: selectList[0]" ∧
+    evaluateSelect (fun _ => none) { list := [] } = .panic "projectColumns: selectList[0]" ∧
+    evaluateSelect (fun _ => some ⟨[[105]], []⟩)
+      { list := [⟨.star, []⟩], from_ := some (.table ⟨[116], none⟩),
+        lim := { limitActive := true, limit := -1 } } = .panic "limit: rows[0:limit]" ∧
+    evaluateSelect (fun _ => some ⟨[[105]], []⟩)
+      { list := [⟨.star, []⟩], from_ := some (.table ⟨[116], none⟩),
+        lim := { offsetActive := true, offset := -1 } } = .panic "offset: rows[offset:]" :=
+  ⟨rfl, rfl, rfl, rfl⟩
 
 /-- (i) GROUP BY without an aggregate goes through the grouping code without panic:
 `SELECT i FROM t GROUP BY i` is one row per distinct `i` -/
